@@ -35,9 +35,9 @@ TRANSFORMS = ("none", "modify", "drop-odd")
 
 
 def annotations(tier):
-    out = [("gff3", 1), ("gff3", 3), ("gff3", 4), ("gtf", 3), ("gff3mixed", 4), ("gff3dots", 4)]
+    out = [("gff3", 1), ("gff3", 3), ("gff3", 4), ("gtf", 3), ("gff3mixed", 4), ("gff3dots", 4), ("gff3", 12)]     # 12: longer than the default window
     if tier != "quick":
-        out += [("gff3", 12), ("gtf", 5)]
+        out += [("gtf", 5), ("gff3", 25), ("gtf", 14)]
     return out
 
 
@@ -117,7 +117,7 @@ def make_transform(name, log, starts=None):
 
     def drop_odd(f):
         log.append(_start(f))
-        idx = starts.index(_start(f))
+        idx = len(log) - 1          # the i-th feature handed over (starts repeat in the longer annotations)
         return f if idx % 2 == 0 else None
 
     return modify if name == "modify" else drop_odd
